@@ -41,6 +41,7 @@ func (m *MovingStd[T]) Compute(c <-chan T) <-chan T {
 	result := make(chan T, cap(c))
 
 	//	Std = Sqrt(1/Period * Sum(Pow(value - sma), 2))
+	helper.VerifStage("MovingStd", m.Period, []any{c}, []any{result})
 	go func() {
 		defer close(result)
 
